@@ -15,7 +15,7 @@ package main
 // block + state, the receipts it stored hash to the headers' receipt roots, every transaction of A resolves through the tx
 // lookup to its block of A, and re-executing A's period-end blocks on that node reproduces their headers.
 //
-//	H seed=<s> prefix=<p> a=<n> b=<m>
+//	H seed=<s> prefix=<p> a=<n> b=<m> [period=1] [plain=1]
 
 import (
 	"fmt"
@@ -141,7 +141,7 @@ type hInfo struct {
 }
 
 // buildBranch runs generated blocks on a session (proposer forced to cbKey), returns the built blocks.
-func buildBranch(s *session, prof *genProfile, r *vh.RNG, n int, cbKey int, first []string) (types.Blocks, error) {
+func buildBranch(s *session, prof *genProfile, r *vh.RNG, n int, cbKey int, extra func(num uint64, idx int) []string) (types.Blocks, error) {
 	var out types.Blocks
 	for i := 0; i < n; i++ {
 		st, _, err := s.w.kit.A.NextState()
@@ -153,8 +153,8 @@ func buildBranch(s *session, prof *genProfile, r *vh.RNG, n int, cbKey int, firs
 			bl = []string{bl[0], fmt.Sprintf("T %d x1 %d", r.Intn(8), r.Intn(1000))}
 		}
 		bl[0] = fmt.Sprintf("B %d", cbKey)
-		if i == 0 {
-			bl = append(bl, first...)
+		if extra != nil {
+			bl = append(bl, extra(s.w.kit.A.BC.CurrentBlock().NumberU64()+1, i)...)
 		}
 		if err := s.runBlock(bl); err != nil {
 			return nil, err
@@ -204,7 +204,33 @@ func runHistory(line string) (fails bool, what string, info hInfo, err error) {
 		}
 		return false, "", info, e
 	}
-	prefix, e := buildBranch(sa, prof, r.Fork(), p, 0, nil)
+	// period layout (period=1): staking transactions are forced at fixed positions of the staking period relative to the fork:
+	// the LAST block of the previous period (takes effect at once, must not be applied again), the period's FIRST block, an
+	// interior block, the block right before the period end and the period-end block itself. Whichever of these lie on the
+	// fork are pending records whose transactions a node can only find by walking the block's own ancestry.
+	freq0 := sa.w.yp.StakingTrieFrequency
+	forced := func(num uint64, idx int) []string {
+		if kv["period"] != 1 {
+			return nil
+		}
+		amt := func() string { return youN(int64(r.Range(3, 60))).String() }
+		switch num % freq0 {
+		case freq0 - 1: // period end (also the last block of the "previous" period for the next one)
+			return []string{"VD 2 2 " + amt(), "DA 5 0 " + amt()}
+		case 0:
+			return []string{"VD 1 1 " + amt(), "DA 4 0 " + amt(), "VW 0 0 u5 " + youN(int64(r.Range(1, 20))).String()}
+		case 6:
+			return []string{"VD 0 0 " + amt(), "DA 6 1 " + amt()}
+		case freq0 - 2:
+			return []string{"VD 2 2 " + amt(), "DA 7 0 " + amt(), "VD 1 1 " + amt()}
+		}
+		return nil
+	}
+	var prefixExtra func(uint64, int) []string
+	if kv["period"] == 1 {
+		prefixExtra = forced
+	}
+	prefix, e := buildBranch(sa, prof, r.Fork(), p, 0, prefixExtra)
 	if e != nil {
 		return stopped(e)
 	}
@@ -227,16 +253,38 @@ func runHistory(line string) (fails bool, what string, info hInfo, err error) {
 	if prof.plain {
 		firstA = nil
 	}
-	A, e := buildBranch(sa, prof, r.Fork(), la, 0, firstA)
+	extraA := func(num uint64, idx int) []string {
+		if kv["period"] == 1 {
+			return forced(num, idx)
+		}
+		if idx == 0 {
+			return firstA
+		}
+		return nil
+	}
+	A, e := buildBranch(sa, prof, r.Fork(), la, 0, extraA)
 	if e != nil {
 		return stopped(e)
 	}
 	profB := &genProfile{lazy: map[int]bool{}, nextKey: 20, txPerBlk: 2}
-	B, e := buildBranch(sb, profB, r.Fork(), lb, 1, []string{fmt.Sprintf("VD 0 0 %s", youN(7))})
+	B, e := buildBranch(sb, profB, r.Fork(), lb, 1, func(num uint64, idx int) []string {
+		if idx == 0 {
+			return []string{fmt.Sprintf("VD 0 0 %s", youN(7))}
+		}
+		return nil
+	})
 	if e != nil {
 		return stopped(e)
 	}
 	info.pendingInA1 = len(A[0].Transactions())
+	if kv["period"] == 1 {
+		info.pendingInA1 = 0
+		for _, b := range A {
+			if m := b.NumberU64() % freq0; m == 0 || m == 6 || m >= freq0-2 {
+				info.pendingInA1 += len(b.Transactions())
+			}
+		}
+	}
 	freq := sa.w.yp.StakingTrieFrequency
 	for _, b := range A {
 		if (b.NumberU64()+1)%freq == 0 {
